@@ -205,7 +205,10 @@ func Open(ctx context.Context, S3 S3Interface, cfg Config, opts OpenOptions, whe
 	persists := []mast.Persist{rootPersist, mergedPersist}
 	if opts.OnlyVersions != nil {
 		versionsToLoad = opts.OnlyVersions
-		persists = []mast.Persist{mergedPersist, rootPersist}
+		// A named version is mostly history, so merged/ comes first; a version that is being
+		// retired right now is copied to merged/ before it leaves current/, so merged/ is
+		// looked at once more after current/.
+		persists = []mast.Persist{mergedPersist, rootPersist, mergedPersist}
 		skipUnreadable = false
 	} else {
 		versionsToLoad, err = listRoots(ctx, S3, rootPersist)
@@ -594,7 +597,7 @@ func (s DB) loadRootGraph(ctx context.Context) (rootGraph, error) {
 	for _, rootName := range s.crdt.MergeSources {
 		todo[rootName] = struct{}{}
 	}
-	persists := []mast.Persist{s.merged, s.root}
+	persists := []mast.Persist{s.merged, s.root, s.merged}
 	for {
 		rootName, ok := getFirst(todo)
 		if !ok {
